@@ -35,7 +35,9 @@ class LinearOperator(EditableModule):
 
     def __new__(cls, *args, **kwargs):
         # check the implemented functions in the class
-        if not cls._implementation_checked:
+        # (look only in the class' own namespace: the flags of a base class that
+        # was instantiated earlier must not be taken over through inheritance)
+        if not cls.__dict__.get("_implementation_checked", False):
             cls._is_mv_implemented = cls.__check_if_implemented("_mv")
             cls._is_mm_implemented = cls.__check_if_implemented("_mm")
             cls._is_rmv_implemented = cls.__check_if_implemented("_rmv")
@@ -45,9 +47,9 @@ class LinearOperator(EditableModule):
 
             cls._implementation_checked = True
 
-            if not cls._is_mv_implemented:
-                raise RuntimeError("LinearOperator must have at least _mv(self) "
-                                   "method implemented")
+        if not cls._is_mv_implemented:
+            raise RuntimeError("LinearOperator must have at least _mv(self) "
+                               "method implemented")
         return super(LinearOperator, cls).__new__(cls)
 
     @classmethod
